@@ -514,6 +514,18 @@ func (d *dataRun) hostileCase(c DataCase, out map[string]interface{}) {
 	case "hugeannounce":
 		inputs = append(inputs, announce(proto, 512<<20))
 		inputs = append(inputs, announce(proto, uint64(limit)+1))
+	case "lowered":
+		// the read limit is LOWERED at run time: sessions, pooled messages and handler contexts that came into being under
+		// the default limit are in use when the new limit takes effect; the oversized frames must be refused all the same
+		socket.SetMessageSizeLimit(0)
+		for i := 0; i < 6; i++ {
+			w.feed(proto, append(append([]byte(nil), valid...), valid...), true, "")
+			w.controlOK()
+		}
+		socket.SetMessageSizeLimit(uint32(limit))
+		inputs = append(inputs, announce(proto, 512<<20))
+		inputs = append(inputs, announce(proto, 1<<20))
+		inputs = append(inputs, announce(proto, uint64(limit)+1))
 	case "duplen":
 		// two Content-Length headers: a large negative one, then one far above the limit (their sum is small)
 		big := 512 << 20
